@@ -87,8 +87,18 @@ class Abstract:
             url = o.get_url()
         except Exception:  # noqa
             url = None
+        try:
+            owns = getattr(o, "get_dir", lambda: None)() is not None
+        except Exception:  # noqa
+            owns = False
+        visible = bool(getattr(o, "visible", True))
+        if getattr(o, "obj", None) == "sourcefile" and not getattr(getattr(self.project, "settings", None),
+                                                                   "incl_src", True):
+            visible = False          # convert_link's own test for source files without pages
         return {"name": o.name, "cls": type(o).__name__, "attrs": attrs,
-                "parent": self.ids[id(par)] if isinstance(par, self.sf.FortranBase) else None, "url": url}
+                "parent": self.ids[id(par)] if isinstance(par, self.sf.FortranBase) else None, "url": url,
+                "owns_page": owns, "visible": visible,
+                "iface_proc": bool(getattr(o, "is_interface_procedure", False))}
 
     def unsupported(self):
         """attribute shapes / names the Coq side cannot carry"""
@@ -139,7 +149,9 @@ def convert(md, base, abstract, ctx_id, text, path=None):
         return ("other", out, buf.getvalue()[-200:])
     href, txt = m.group(1), html.unescape(m.group(2))
     if href is None:
-        return ("plain", txt, "warning" if "Could not substitute link" in buf.getvalue() else "no-warning")
+        log = buf.getvalue()
+        return ("plain", txt, "not-displayed" if "is not displayed" in log else
+                "warning" if "Could not substitute link" in log else "no-warning")
     href = html.unescape(href)
     if href.startswith("http"):
         return ("link", abstract.by_url().get(href, []), href, txt)
